@@ -33,6 +33,7 @@ CONSTANTS W,          \* number of worker threads (>= 1)
           Fail,       \* indices whose processing function panics
           HookOn,     \* the process-exiting panic hook is installed
           HookLate,   \* negative control: the hook is installed only after the workers were started
+          HookFragile,\* negative control: a worker that finds the upstream exhausted takes the hook away again
           AllowDrop   \* the consumer may abandon the iterator
 
 VARIABLES len,        \* length of the upstream (unknown to the pipe until exhausted)
@@ -75,7 +76,9 @@ Take(w) == /\ ~aborted /\ pc[w] = "top"
                    /\ pc' = [pc EXCEPT ![w] = "taken"]
               ELSE /\ pc' = [pc EXCEPT ![w] = "exit"]
                    /\ UNCHANGED <<tk, src>>
-           /\ UNCHANGED <<hook, len, sok, sendNext, chan, out, cons, calls, aborted, srcAtDrop>>
+           \* (the hook is process-global and must outlive every worker: it stays)
+           /\ hook' = IF HookFragile /\ src >= len THEN FALSE ELSE hook
+           /\ UNCHANGED <<len, sok, sendNext, chan, out, cons, calls, aborted, srcAtDrop>>
 
 \* the processing function; a panic either exits the process (hook) or kills the thread
 Compute(w) == /\ ~aborted /\ pc[w] = "taken"
